@@ -239,3 +239,19 @@ def tt(x):
 
 def scheme_of(c):
     return (tuple(float(v) for v in c[0]), tuple(float(v) for v in c[1]))
+
+
+def observe_dataset(d):
+    """read every view and derived object once (results discarded) so that whatever the object caches is
+    populated before a later mutation."""
+    try:
+        d.unified_rankings()
+        d.unified_dataset()
+        d.get_positions()
+        d.get_bucket_ids()
+        d.universe, d.nb_elements, d.mapping_elem_id, d.mapping_id_elem, d.is_complete, d.without_ties
+        str(d), d.description()
+        for r in d.rankings:
+            r.positions, r.domain, r.nb_elements
+    except Exception:
+        pass
